@@ -559,6 +559,91 @@ func mpscSequential(init, max uint32) string {
 	return ""
 }
 
+// cacheOrder is the cache-level half of C16: with an executor that only queues its tasks the write
+// buffer fills up and writers fall back to applying their event themselves; every producer writes
+// increasing values to its own keys, so the Replacement notifications of each key must arrive in
+// increasing order (events of one producer are consumed in the order it submitted them) and every
+// overwritten value must be reported exactly once (no write is forgotten).
+func cacheOrder(seed uint64) (violation string, writes, notifications int64) {
+	r := core.NewRng(seed)
+	var mu sync.Mutex
+	var queue []func()
+	var events []otter.DeletionEvent[int, int]
+	o := &otter.Options[int, int]{
+		MaximumSize: 100000,
+		Executor: func(fn func()) {
+			mu.Lock()
+			queue = append(queue, fn)
+			mu.Unlock()
+		},
+		OnDeletion: func(e otter.DeletionEvent[int, int]) {
+			mu.Lock()
+			events = append(events, e)
+			mu.Unlock()
+		},
+	}
+	c, err := otter.New(o)
+	if err != nil {
+		return "cannot build: " + err.Error(), 0, 0
+	}
+	defer c.StopAllGoroutines()
+	producers := 1 + r.Intn(4)
+	per := 2300 + r.Intn(1500)
+	if producers > 1 {
+		per = 900 + r.Intn(900)
+	}
+	keysPer := 1 + r.Intn(3)
+	var wg sync.WaitGroup
+	for p := 0; p < producers; p++ {
+		wg.Add(1)
+		go func(p int) {
+			defer wg.Done()
+			for i := 0; i < per; i++ {
+				c.Set(p*10+i%keysPer, i+1)
+				progress.Add(1)
+			}
+		}(p)
+	}
+	wg.Wait()
+	c.CleanUp()
+	// run the queued tasks in the order they were submitted (notifications are queued in replay order)
+	for {
+		mu.Lock()
+		if len(queue) == 0 {
+			mu.Unlock()
+			break
+		}
+		fn := queue[0]
+		queue = queue[1:]
+		mu.Unlock()
+		fn()
+	}
+	last := map[int]int{}
+	count := map[int]int{}
+	for _, e := range events {
+		if e.Cause != otter.CauseReplacement {
+			return fmt.Sprintf("unexpected deletion event %+v", e), int64(producers * per), int64(len(events))
+		}
+		if e.Value <= last[e.Key] {
+			return fmt.Sprintf("key %d (one producer, values written in increasing order): the replacement of value %d was consumed after the replacement of value %d", e.Key, e.Value, last[e.Key]), int64(producers * per), int64(len(events))
+		}
+		last[e.Key] = e.Value
+		count[e.Key]++
+	}
+	for p := 0; p < producers; p++ {
+		for k := 0; k < keysPer; k++ {
+			n := per / keysPer
+			if k < per%keysPer {
+				n++
+			}
+			if count[p*10+k] != n-1 {
+				return fmt.Sprintf("key %d was overwritten %d times but %d replacements were reported", p*10+k, n-1, count[p*10+k]), int64(producers * per), int64(len(events))
+			}
+		}
+	}
+	return "", int64(producers * per), int64(len(events))
+}
+
 func RunC16(col *core.Collector, tier, variant string, seed uint64, shard, nshards int, replayDir, outBase string) {
 	col.Note("rule: a trial = 1-16 producers pushing unique (producer, seq) elements into the cache's MPSC buffer built with an (initial, max) capacity pair while one consumer pops, delays between index CAS and element publication and inside resize; non-trivial = the buffer grew by linking at least one chunk (accepted > initial capacity) with 2+ producers; distinct = hash of (config, refusals, delivered order)")
 	n := 900
@@ -574,6 +659,25 @@ func RunC16(col *core.Collector, tier, variant string, seed uint64, shard, nshar
 		col.Write(outBase)
 		os.Exit(0)
 	})
+	if variant == "plain" {
+		m := 40
+		if tier == "thorough" {
+			m = 1500
+		}
+		for i := shard; i < m; i += nshards {
+			cs := core.Derive(seed, core.StrLabel("C16cache"), uint64(i))
+			wd.Arm()
+			v, w, nn := cacheOrder(cs)
+			wd.Disarm()
+			col.Eval(1)
+			col.Count("cache_level.writes", w)
+			col.Count("cache_level.notifications", nn)
+			if v != "" {
+				path := writeReplay(replayDir, fmt.Sprintf("C16-cache-%x.json", cs), map[string]any{"engine": "cache-order", "case_seed": cs, "violation": v})
+				col.Violation(core.Violation{Property: "C16", Signature: "cache-order:" + sigText(v), Detail: v, Replay: path})
+			}
+		}
+	}
 	if shard == 0 {
 		for init := uint32(2); init <= 64; init++ {
 			for _, max := range []uint32{4, 5, 7, 8, 16, 31, 33, 64, 100, 128, 1000, 1024} {
